@@ -51,6 +51,8 @@ def workdir():
 
 @atexit.register
 def _cleanup():
+    if os.environ.get("VERIF_KEEP"):
+        return
     for d in _workdirs:
         shutil.rmtree(d, ignore_errors=True)
 
